@@ -18,6 +18,7 @@ structure Inv (c : Cab) : Prop where
   count : c.count = liveCount c.cells
   lenBound : c.cells.length ≤ c.lastId
   idMax : c.lastId ≤ sizeMax
+  noWrap : c.wrapped = false
 
 theorem chain_set_notin (cells : List Cell) (p : Nat) (l : List Nat) (q : Nat) (x : Cell)
     (h : Chain cells p l) (hq : q ∉ l) : Chain (cells.set q x) p l := by
@@ -43,19 +44,21 @@ theorem chain_append (cells : List Cell) (p : Nat) (l : List Nat) (x : Cell)
       rw [List.getElem?_append_left this]; exact h3
 
 theorem init_inv : Inv ({} : Cab) := by
-  refine ⟨by simp, by simp, ⟨[], rfl, by simp, by simp⟩, rfl, by simp, by simp [sizeMax]⟩
+  refine ⟨by simp, by simp, ⟨[], rfl, by simp, by simp⟩, rfl, by simp, by simp [sizeMax], rfl⟩
 
 /-! ### alloc -/
 
 theorem alloc_reuse (c : Cab) (o : Nat) (cell : Cell) (h1 : c.firstFree ≠ sizeMax)
     (h2 : c.cells[c.firstFree]? = some cell) (hw : c.lastId ≠ sizeMax) :
     c.alloc o = ({ lastId := c.lastId + 1, cells := c.cells.set c.firstFree ⟨c.lastId + 1, o⟩,
-                   firstFree := cell.w, count := c.count + 1 }, some ⟨c.lastId + 1, c.firstFree⟩) := by
+                   firstFree := cell.w, count := c.count + 1, wrapped := c.wrapped },
+                 some ⟨c.lastId + 1, c.firstFree⟩) := by
   simp [alloc, allocId, allocPos, h1, h2, hw]
 
 theorem alloc_push (c : Cab) (o : Nat) (h1 : c.firstFree = sizeMax) (hw : c.lastId ≠ sizeMax) :
     c.alloc o = ({ lastId := c.lastId + 1, cells := c.cells ++ [⟨c.lastId + 1, o⟩],
-                   firstFree := sizeMax, count := c.count + 1 }, some ⟨c.lastId + 1, c.cells.length⟩) := by
+                   firstFree := sizeMax, count := c.count + 1, wrapped := c.wrapped },
+                 some ⟨c.lastId + 1, c.cells.length⟩) := by
   simp [alloc, allocId, allocPos, h1, hw]
 
 /-- what the free list says about `firstFree` -/
@@ -97,7 +100,7 @@ theorem alloc_inv (c : Cab) (o : Nat) (h : Inv c) (hw : c.lastId < sizeMax) :
   rcases inv_first c h with ⟨hf, hall⟩ | ⟨hf, cell, hcell, hid⟩
   · -- no free cell: push_back
     rw [alloc_push c o hf hw']
-    refine ⟨⟨?_, ?_, ?_, ?_, ?_, ?_⟩, _, rfl, rfl⟩
+    refine ⟨⟨?_, ?_, ?_, ?_, ?_, ?_, h.noWrap⟩, _, rfl, rfl⟩
     · intro p x hp
       simp only [List.getElem?_append] at hp
       split at hp
@@ -159,7 +162,7 @@ theorem alloc_inv (c : Cab) (o : Nat) (h : Inv c) (hw : c.lastId < sizeMax) :
       have hcc : cell' = cell := by rw [hcell] at hcell'; exact (Option.some.inj hcell').symm
       subst hcc
       have hal : a ∉ l := (List.nodup_cons.1 hnd).1
-      refine ⟨⟨?_, ?_, ?_, ?_, ?_, ?_⟩, _, rfl, rfl⟩
+      refine ⟨⟨?_, ?_, ?_, ?_, ?_, ?_, h.noWrap⟩, _, rfl, rfl⟩
       · intro p x hp
         simp only [List.getElem?_set] at hp
         split at hp
@@ -254,7 +257,7 @@ theorem free_inv (c : Cab) (t : Token) (h : Inv c) : Inv (c.free t).1 := by
       intro hin
       obtain ⟨x, hx, hx0⟩ := (hm t.pos).1 hin
       rw [hcell] at hx; cases hx; exact hid hx0
-    refine ⟨?_, ?_, ?_, ?_, ?_, h.idMax⟩
+    refine ⟨?_, ?_, ?_, ?_, ?_, h.idMax, h.noWrap⟩
     · intro p x hp
       simp only [List.getElem?_set] at hp
       split at hp
@@ -301,7 +304,7 @@ theorem update_inv (c : Cab) (t : Token) (o : Nat) (h : Inv c) : Inv (c.update t
       intro hin
       obtain ⟨x, hx, hx0⟩ := (hm t.pos).1 hin
       rw [hcell] at hx; cases hx; exact hid hx0
-    refine ⟨?_, ?_, ?_, ?_, ?_, h.idMax⟩
+    refine ⟨?_, ?_, ?_, ?_, ?_, h.idMax, h.noWrap⟩
     · intro p x hp
       simp only [List.getElem?_set] at hp
       split at hp
@@ -335,36 +338,97 @@ theorem update_inv (c : Cab) (t : Token) (o : Nat) (h : Inv c) : Inv (c.update t
     · simp only [List.length_set]; exact h.lenBound
 
 theorem clear_inv (c : Cab) (h : Inv c) : Inv c.clear := by
-  refine ⟨by simp [clear], by simp [clear], ⟨[], rfl, by simp, by simp [clear]⟩, rfl, by simp [clear], h.idMax⟩
+  refine ⟨by simp [clear], by simp [clear], ⟨[], rfl, by simp, by simp [clear]⟩, rfl, by simp [clear], h.idMax, h.noWrap⟩
 
-theorem freeAll_inv (c : Cab) (ts : List Token) (h : Inv c) : Inv (c.freeAll ts) := by
-  induction ts generalizing c with
+/-! ### action lists and `foreach` -/
+
+theorem allocPos_wrapped (c c2 : Cab) (p : Nat) (h : c.allocPos = some (c2, p)) : c2.wrapped = c.wrapped := by
+  unfold allocPos at h
+  split at h
+  · split at h
+    · cases h
+    · cases h; rfl
+  · cases h; rfl
+
+theorem alloc_wrapped (c : Cab) (o : Nat) :
+    (c.alloc o).1.wrapped = (c.wrapped || decide (c.lastId = sizeMax)) := by
+  have hid : c.allocId.1.wrapped = (c.wrapped || decide (c.lastId = sizeMax)) := by
+    unfold allocId; split <;> simp_all
+  unfold alloc
+  simp only []
+  cases hp : c.allocId.1.allocPos with
+  | none => simpa using hid
+  | some r =>
+      obtain ⟨c2, p⟩ := r
+      have := allocPos_wrapped _ _ _ hp
+      simp only [this]; exact hid
+
+theorem act_wrapped (c : Cab) (a : CbAct) :
+    (c.act a).1.wrapped = (c.wrapped || (match a with | .alloc _ => decide (c.lastId = sizeMax) | _ => false)) := by
+  cases a with
+  | alloc o => exact alloc_wrapped c o
+  | update t o => simp only [act, update]; split <;> simp
+  | free t => simp only [act, free]; split <;> simp
+  | clear => simp [act, clear]
+
+theorem act_wrapped_mono (c : Cab) (a : CbAct) (h : c.wrapped = true) : (c.act a).1.wrapped = true := by
+  rw [act_wrapped, h]; rfl
+
+theorem runActs_wrapped_mono (c : Cab) (as : List CbAct) (h : c.wrapped = true) :
+    (c.runActs as).wrapped = true := by
+  induction as generalizing c with
   | nil => exact h
-  | cons t ts ih => exact ih _ (free_inv c t h)
+  | cons a as ih => exact ih _ (act_wrapped_mono c a h)
 
-theorem freeAll_lastId (c : Cab) (ts : List Token) : (c.freeAll ts).lastId = c.lastId := by
-  induction ts generalizing c with
-  | nil => rfl
-  | cons t ts ih =>
-      simp only [freeAll]; rw [ih]
-      unfold free; split <;> rfl
+theorem act_inv (c : Cab) (a : CbAct) (h : Inv c) (hw : (c.act a).1.wrapped = false) :
+    Inv (c.act a).1 ∧ c.lastId ≤ (c.act a).1.lastId := by
+  cases a with
+  | alloc o =>
+      have hne : c.lastId ≠ sizeMax := by
+        intro e
+        have := alloc_wrapped c o
+        simp only [act] at hw
+        rw [hw, e] at this; simp at this
+      have hlt : c.lastId < sizeMax := by have := h.idMax; omega
+      obtain ⟨h1, _, _, h3⟩ := alloc_inv c o h hlt
+      exact ⟨h1, by simp only [act]; omega⟩
+  | update t o =>
+      refine ⟨update_inv c t o h, ?_⟩
+      simp only [act, update]; split <;> exact Nat.le_refl _
+  | free t =>
+      refine ⟨free_inv c t h, ?_⟩
+      simp only [act, free]; split <;> exact Nat.le_refl _
+  | clear => exact ⟨clear_inv c h, Nat.le_refl _⟩
 
-theorem freeAll_append (c : Cab) (a b : List Token) : c.freeAll (a ++ b) = (c.freeAll a).freeAll b := by
+theorem runActs_inv (c : Cab) (as : List CbAct) (h : Inv c) (hw : (c.runActs as).wrapped = false) :
+    Inv (c.runActs as) ∧ c.lastId ≤ (c.runActs as).lastId := by
+  induction as generalizing c with
+  | nil => exact ⟨h, Nat.le_refl _⟩
+  | cons a as ih =>
+      have hwa : (c.act a).1.wrapped = false := by
+        cases hx : (c.act a).1.wrapped with
+        | false => rfl
+        | true => have := runActs_wrapped_mono _ as hx; simp only [runActs] at hw; rw [hw] at this; cases this
+      have h1 := act_inv c a h hwa
+      have h2 := ih _ h1.1 hw
+      exact ⟨h2.1, Nat.le_trans h1.2 h2.2⟩
+
+theorem runActs_append (c : Cab) (a b : List CbAct) : c.runActs (a ++ b) = (c.runActs a).runActs b := by
   induction a generalizing c with
   | nil => rfl
-  | cons t ts ih => simp only [List.cons_append, freeAll]; exact ih _
+  | cons t ts ih => simp only [List.cons_append, runActs]; exact ih _
 
-/-- `foreach` changes the cabinet only through the removals its callbacks perform -/
-theorem foldl_each (f : Nat → List Token) (ps : List Nat) (st : Cab × List (Nat × Nat)) :
+/-- `foreach` changes the cabinet only through the calls its callbacks make -/
+theorem foldl_each (f : Nat → List CbAct) (ps : List Nat) (st : Cab × List (Nat × Nat)) :
     ((ps.foldl (eachStep f) st).1 =
-      st.1.freeAll ((List.range' st.2.length ((ps.foldl (eachStep f) st).2.length - st.2.length)).flatMap f)) ∧
+      st.1.runActs ((List.range' st.2.length ((ps.foldl (eachStep f) st).2.length - st.2.length)).flatMap f)) ∧
     st.2.length ≤ (ps.foldl (eachStep f) st).2.length := by
   induction ps generalizing st with
-  | nil => simp [freeAll]
+  | nil => simp [runActs]
   | cons p ps ih =>
       simp only [List.foldl_cons]
       have hstep : (eachStep f st p = st) ∨
-          (eachStep f st p).1 = st.1.freeAll (f st.2.length) ∧ (eachStep f st p).2.length = st.2.length + 1 := by
+          (eachStep f st p).1 = st.1.runActs (f st.2.length) ∧ (eachStep f st p).2.length = st.2.length + 1 := by
         unfold eachStep
         split
         · left; rfl
@@ -375,38 +439,53 @@ theorem foldl_each (f : Nat → List Token) (ps : List Nat) (st : Cab × List (N
       · rw [he]; exact ih st
       · have := ih (eachStep f st p)
         refine ⟨?_, by omega⟩
-        rw [this.1, h1, h2, ← freeAll_append]
+        rw [this.1, h1, h2, ← runActs_append]
         congr 1
         have hk : (List.foldl (eachStep f) (eachStep f st p) ps).2.length - st.2.length
             = ((List.foldl (eachStep f) (eachStep f st p) ps).2.length - (st.2.length + 1)) + 1 := by omega
         rw [hk, List.range'_succ]
         simp
 
-theorem foreach_eq_freeAll (c : Cab) (f : Nat → List Token) :
-    (c.foreach f).1 = c.freeAll (c.eachFreed f) := by
+theorem foreach_eq_runActs (c : Cab) (f : Nat → List CbAct) :
+    (c.foreach f).1 = c.runActs (c.eachActs f) := by
   have := (foldl_each f (List.range c.cells.length) (c, [])).1
   simp only [List.length_nil, Nat.sub_zero] at this
-  unfold eachFreed foreach
+  unfold eachActs foreach
   rw [this, List.range_eq_range' (n := (List.foldl (eachStep f) (c, []) (List.range c.cells.length)).snd.length)]
 
-theorem step_inv (c : Cab) (op : CabOp) (h : Inv c)
-    (hw : (∃ o, op = .alloc o) → c.lastId < sizeMax) : Inv (c.step op) := by
+theorem step_inv (c : Cab) (op : CabOp) (h : Inv c) (hw : (c.step op).wrapped = false) :
+    Inv (c.step op) ∧ c.lastId ≤ (c.step op).lastId := by
   cases op with
-  | alloc o => exact (alloc_inv c o h (hw ⟨o, rfl⟩)).1
-  | update t o => exact update_inv c t o h
-  | free t => exact free_inv c t h
-  | clear => exact clear_inv c h
-  | each f => simp only [step]; rw [foreach_eq_freeAll]; exact freeAll_inv _ _ h
+  | act a => exact act_inv c a h hw
+  | each f =>
+      simp only [step] at hw ⊢
+      rw [foreach_eq_runActs] at hw ⊢
+      exact runActs_inv c _ h hw
 
-theorem step_lastId (c : Cab) (op : CabOp) (h : Inv c)
-    (hw : (∃ o, op = .alloc o) → c.lastId < sizeMax) :
-    (c.step op).lastId = c.lastId + nAllocs [op] := by
+theorem step_wrapped_mono (c : Cab) (op : CabOp) (h : c.wrapped = true) : (c.step op).wrapped = true := by
   cases op with
-  | alloc o => obtain ⟨_, _, _, h3⟩ := alloc_inv c o h (hw ⟨o, rfl⟩); simpa [step, nAllocs] using h3
-  | update t o => simp only [step, update, nAllocs]; split <;> rfl
-  | free t => simp only [step, free, nAllocs]; split <;> rfl
-  | clear => rfl
-  | each f => simp only [step, nAllocs]; rw [foreach_eq_freeAll, freeAll_lastId]; rfl
+  | act a => exact act_wrapped_mono c a h
+  | each f => simp only [step]; rw [foreach_eq_runActs]; exact runActs_wrapped_mono c _ h
+
+theorem run_wrapped_mono (c : Cab) (ops : List CabOp) (h : c.wrapped = true) : (c.run ops).wrapped = true := by
+  induction ops generalizing c with
+  | nil => exact h
+  | cons op ops ih => exact ih _ (step_wrapped_mono c op h)
+
+/-- a history that ends unwrapped never wrapped: every intermediate state is consistent and the id
+counter never decreases -/
+theorem run_inv (c : Cab) (ops : List CabOp) (h : Inv c) (hw : (c.run ops).wrapped = false) :
+    Inv (c.run ops) ∧ c.lastId ≤ (c.run ops).lastId := by
+  induction ops generalizing c with
+  | nil => exact ⟨h, Nat.le_refl _⟩
+  | cons op ops ih =>
+      have hwa : (c.step op).wrapped = false := by
+        cases hx : (c.step op).wrapped with
+        | false => rfl
+        | true => have := run_wrapped_mono _ ops hx; simp only [run] at hw; rw [hw] at this; cases this
+      have h1 := step_inv c op h hwa
+      have h2 := ih _ h1.1 hw
+      exact ⟨h2.1, Nat.le_trans h1.2 h2.2⟩
 
 end Cab
 end Tbox.C08
